@@ -105,4 +105,13 @@ def setQuantity (k : Nat) (e : Eff) (v : Int) : Eff :=
   | .quantity => let (c, a) := split k v; { e with aaClass := some c, aaQty := some a, quantity := some v }
   | _ => { e with quantity := some v }
 
+/-- the `effect_type` / `object_attributes` setters: both call `_update_armour_attack_flag`, which re-derives the
+source family from the (new) type and attribute; nothing else changes -/
+def retarget (f : Family) (e : Eff) (et oa : Option Int) : Eff := { e with src := source f et oa }
+
+/-- the `armour_attack_class` / `armour_attack_quantity` / `variable` setters (plain assignments) -/
+def setClass (e : Eff) (c : Int) : Eff := { e with aaClass := some c }
+def setAmount (e : Eff) (a : Int) : Eff := { e with aaQty := some a }
+def setVar (e : Eff) (v : Int) : Eff := { e with var := v }
+
 end Aoe.AA
